@@ -117,7 +117,7 @@ pub fn build(s: &Sx) -> &'static dyn Aml {
         },
         22 => leak(IO::new(n(1) as u16, n(2) as u16, n(3) as u8, n(4) as u8)),
         23 => leak(Interrupt::new(n(1) != 0, n(2) != 0, n(3) != 0, n(4) != 0, n(5) as u32)),
-        24 => leak(Register::new(gas::GAS::new(gas_space(n(1)), n(2) as u8, n(3) as u8, gas_access(n(4)), n(5)))),
+        24 => leak(Register::new(crate::tcommon::raw(gas::GAS::new(gas_space(n(1)), n(2) as u8, n(3) as u8, gas_access(n(4)), n(5))))),
         30 => {
             let a = build(&o[2]);
             match n(1) {
@@ -636,6 +636,68 @@ pub fn gen_c06(tier: &str, rng: &mut Rng, emit: &mut Emit) {
         emit.case(40, l(vec![a(45), bytes(b"PWR0"), a(1), a(2), l(vec![body.clone()])]));
         emit.case(40, l(vec![a(30), a(5), body.clone()]));
         emit.case(40, l(vec![a(60), l(vec![body])]));
+    }
+}
+
+/// C07 at the call sites: one object of every length-prefixed kind, with a filler child swept across the sizes at which
+/// the PkgLength (63/64, 4095/4096, 2^20) or an inner size field (255/256, 65535/65536) changes width
+pub fn gen_c07_sites(tier: &str, rng: &mut Rng, emit: &mut Emit) {
+    let mut sizes: Vec<usize> = (0..=80).chain(236..=262).chain(4060..=4100).chain(65_515..=65_545).collect();
+    if tier == "thorough" {
+        sizes.extend((1usize << 20) - 24..=(1usize << 20) + 4);
+        sizes.extend((0..200).map(|_| rng.range(100, 300_000) as usize));
+    }
+    for &k in &sizes {
+        let f = l(vec![a(11), bytes(&rng.bytes(k))]);
+        let big = k > 5000;
+        emit.case(40, f.clone());
+        emit.case(40, l(vec![a(30), a(5), f.clone()]));
+        emit.case(40, l(vec![a(41), bytes(b"ABCD"), l(vec![f.clone()])]));
+        emit.case(40, l(vec![a(42), bytes(b"ABCD"), l(vec![f.clone()])]));
+        emit.case(40, l(vec![a(43), bytes(b"ABCD"), l(vec![f.clone()])]));
+        emit.case(40, l(vec![a(44), bytes(b"ABCD"), a(rng.below(8)), a(rng.below(2)), l(vec![f.clone()])]));
+        emit.case(40, l(vec![a(60), l(vec![f.clone()])]));
+        emit.case(40, l(vec![a(61), l(vec![f.clone()])]));
+        if !big || tier == "thorough" || k % 4 == 0 {
+            emit.case(40, l(vec![a(45), bytes(b"PWR0"), a(rng.val(8)), a(rng.val(16)), l(vec![f.clone()])]));
+            emit.case(40, l(vec![a(63), l(vec![a(2)]), l(vec![f.clone()])]));
+            emit.case(40, l(vec![a(64), l(vec![f.clone()])]));
+            emit.case(40, l(vec![a(65), l(vec![a(2)]), l(vec![f.clone()])]));
+            // two levels: the outer width changes a few bytes earlier than the inner one
+            let inner = l(vec![a(42), bytes(b"IN__"), l(vec![f.clone()])]);
+            emit.case(40, l(vec![a(41), bytes(b"OUT_"), l(vec![inner])]));
+        }
+    }
+    emit.case(40, l(vec![a(30), a(4), l(vec![a(4), a(32), a(70_000)])]));
+    emit.case(40, l(vec![a(30), a(4), l(vec![a(1)])]));
+    // resource templates: n 12-byte descriptors plus j 8-byte ones, totals across 63, 255, 4095 and 65535 bytes
+    for n in (0usize..8).chain(18..24).chain(336..345).chain(5455..5466) {
+        for j in 0..3usize {
+            let mut ds: Vec<Sx> = (0..n).map(|_| l(vec![a(20), a(rng.below(2)), a(rng.val(32)), a(rng.val(32))])).collect();
+            for _ in 0..j {
+                ds.push(l(vec![a(22), a(rng.val(16)), a(rng.val(16)), a(rng.val(8)), a(rng.val(8))]));
+            }
+            emit.case(40, l(vec![a(62), l(ds)]));
+        }
+    }
+    // field lists: widths (exclusive form) across every width class, and entry counts carrying the list across 63 / 4095
+    let mut widths: Vec<u64> = (0..=70).chain(4090..=4100).chain(65_530..=65_540).collect();
+    widths.extend((1u64 << 20) - 4..=(1u64 << 20) + 4);
+    widths.extend((1u64 << 28) - 6..(1u64 << 28));
+    for _ in 0..200 {
+        let bits = rng.range(1, 28);
+        widths.push(rng.val(bits as u32));
+    }
+    for &w in &widths {
+        let named = l(vec![a(0), bytes(b"FLD0"), a(w)]);
+        let reserved = l(vec![a(1), a(w)]);
+        for es in [vec![named.clone()], vec![reserved.clone()], vec![reserved.clone(), named.clone(), reserved.clone()]] {
+            emit.case(40, l(vec![a(51), bytes(b"REG0"), a(rng.below(6)), a(rng.below(2)), a(rng.below(3)), l(es)]));
+        }
+    }
+    for n in (0usize..16).chain(680..686) {
+        let es: Vec<Sx> = (0..n).map(|i| if i % 3 == 2 { l(vec![a(1), a(rng.val(12))]) } else { l(vec![a(0), bytes(b"FLD1"), a(rng.val(6))]) }).collect();
+        emit.case(40, l(vec![a(51), bytes(b"REG0"), a(1), a(0), a(0), l(es)]));
     }
 }
 
